@@ -148,9 +148,12 @@ CLAIMED = {
              'the Context API; extra_ctx_set_current_id(0) is accepted by the code (deselect) and specified so; F2/F3 fixes applied.',
         ref='DESIGN.md §7 C09'),
     'C08': dict(
-        technique='Lean 4 refinement proof (inductive invariant over operation histories) of a hand-written model of '
-                  'UltraMatrixGraph over petgraph 0.7.1 MatrixGraph against a plain directed-graph specification + '
-                  'differential correspondence run of model and spec oracle against the real UltraGraph',
+        technique='Lean 4 refinement proof (inductive invariant over operation histories) of a model of UltraMatrixGraph over '
+                  'petgraph 0.7.1 MatrixGraph against a plain directed-graph specification, about the wrapper functions as '
+                  'regenerated from their current source by the fail-closed translator tools/rs2lean_ugraphfns.py '
+                  '(Gen/UGraphFns.lean; Props/C08Gen.lean proves every generated definition equal to the model on every well-formed '
+                  'state and transports the theorems) + differential correspondence run of model and spec oracle against the real '
+                  'UltraGraph',
         text='Theorem c08_refinement: for every history (any length, any interleaving) of add_node, add_root_node, remove_node, '
              'add_edge, add_edge_with_weight, remove_edge, clear and every observer, the outputs of the implementation model '
              '(id allocator with reuse, adjacency cells, petgraph edge counter, node_map, index_map, root) are exactly those the '
@@ -158,10 +161,26 @@ CLAIMED = {
              'c08_reachable_wf, c08_never_panics, c08_add_fresh, c08_value_until_removed, c08_edges_between_live, '
              'c08_remove_edge_effect / c08_remove_node_effect / c08_add_edge_effect, c08_failed_ops_change_nothing. The model is '
              'the code with fixes F2 (remove_edge erased both end nodes from index_map) and F3 (stale number_edges after remove_node) '
-             'applied; the defects of the unrepaired code are kernel-checked witnesses (c08_F2_…, c08_F3_…) replayed on the real code.',
-        note='Trusted: Lean kernel; the hand-written model Model/UGraph.lean (tied to the code only by the correspondence run: '
-             'every observer re-read after every mutator, all constructors, initial capacities 0-4, index reuse); petgraph 0.7.1 '
-             'MatrixGraph/IdStorage is modelled (matrix growth as identity), not proved; hash-map iteration order canonicalised by sorting.',
+             'applied; the defects of the unrepaired code are kernel-checked witnesses (c08_F2_…, c08_F3_…) replayed on the real code. '
+             'Tie to the source: Gen/UGraphFns.lean holds one definition per Rust function of matrix_graph/{mod,graph_like,graph_root,'
+             'graph_storage,graph_algorithms}.rs (24: new, new_with_capacity, add_node, contains_node, get_node, remove_node, add_edge, '
+             'add_edge_with_weight, contains_edge, remove_edge, add_root_node, contains_root_node, get_root_node, get_root_index, '
+             'get_last_index, size, is_empty, number_nodes, number_edges, get_all_nodes, get_all_edges, clear, outgoing_edges, '
+             'shortest_path), transcribed statement by statement into the Option monad (none = panic); Props/C08Gen.lean: one '
+             '`<fn>_eq` theorem per definition (same answer, same final state, panics exactly where the model does, on every state '
+             'satisfying the invariant WF of c08_reachable_wf), gen_step / gen_run (the step function assembled from the generated '
+             'definitions = the model step), and c08gen_refinement, c08gen_reachable_wf, c08gen_never_panics, '
+             'c08gen_failed_ops_change_nothing restated on the generated definitions.',
+        note='Trusted: Lean kernel; rs2lean_ugraphfns.py (~1800 lines: item scanner, statement / pattern / closure parser on top of '
+             'rsblock.py, typed statement-by-statement translation; grammar and the table Rust method -> primitive in its docstring; '
+             'refuses anything else); the vocabulary of Model/UGraph.lean the generated definitions are written against: AHashMap as '
+             'association list, petgraph 0.7.1 MatrixGraph/IdStorage (petAddNode, petAddEdge, petRemoveEdge, petRemoveNode, '
+             'petNodeCount, petEdgeCount, petClear, hasCell, rowOf, colOf; id reuse, neighbour order, nb_edges bookkeeping, matrix '
+             'growth as identity) — modelled and exercised by the correspondence run (every observer re-read after every mutator, '
+             'all constructors, initial capacities 0-4, index reuse), not proved; NodeIndex::new / index() as the identity (indices '
+             '< 2^32, Gen/UGraphTypes.lean; indices >= 2^32 are exercised on the real code); Err payloads dropped; debug_assert = '
+             'assert; hash-map iteration order canonicalised by sorting. The wrapper part of Model/UGraph.lean is no longer trusted '
+             'for C08: it is proved equal to the generated definitions on every reachable state.',
         ref='DESIGN.md §7 C08, §5.1, §6 F2/F3'),
     'C12': dict(
         technique='Lean 4 proof (containers reduced to the item list they hand to the trait default methods; permutation '
